@@ -242,6 +242,11 @@ def main():
     from c12_consts import emit_c12
     emit_c12(emit, find, src, join_literals, Missing)
 
+    # --- spin-lock back-off constant (C11): see tools/c11_consts.py
+    sys.path.insert(0, os.path.dirname(os.path.abspath(__file__)))
+    from c11_consts import emit_c11
+    emit_c11(emit, find, src, Missing)
+
     text = "\n".join(out) + "\n"
     old = None
     try:
